@@ -201,4 +201,47 @@ MUTANTS = [
 
     /// Prints the given new expression.
     pub fn new_expr_old(&mut self, expr: &NewExpr) -> std::fmt::Result {""", control=True),
+
+    # ---------------- C07
+    dict(id="c07-drop-is-async", prop="C07", expect="R07.1|field|FuncType.is_async", file="crates/wac-types/src/checker.rs",
+         old="""        if a.is_async != b.is_async {""", new="""        if false {"""),
+    dict(id="c07-table-shared-ignored", prop="C07", expect="R07.1|field|CoreExtern::Table.shared", file="crates/wac-types/src/checker.rs",
+         old="""                if ashared != bshared {
+                    bail!("mismatched shared flag for tables");
+                }
+""", new="""                let _ = (ashared, bshared);
+"""),
+    dict(id="c07-unswap-world-imports", prop="C07", expect="R07.2|world|is_subtype@0", file="crates/wac-types/src/checker.rs",
+         old="""                    self.is_subtype(*b, bt, *a, at)
+                        .with_context(|| format!("mismatched type for import `{k}`"))?;""",
+         new="""                    self.is_subtype(*a, at, *b, bt)
+                        .with_context(|| format!("mismatched type for import `{k}`"))?;"""),
+    dict(id="c07-memo-before-check", prop="C07", expect="R07.3|insert-after-ok", file="crates/wac-types/src/checker.rs",
+         old="""        let result = self.is_subtype_(a, at, b, bt);
+        if result.is_ok() {
+            self.cache.insert((a, b));
+        }
+
+        result""",
+         new="""        if !self.cache.insert((a, b)) {
+            return Ok(());
+        }
+
+        self.is_subtype_(a, at, b, bt)"""),
+    dict(id="c07-drop-check-at-argument", prop="C07", expect="R07.6|check-before-edge", file=G,
+         old="""            let mut checker = SubtypeChecker::new(cache);
+            checker
+                .is_subtype(
+                    argument_node.item_kind,
+                    &graph.types,
+                    *expected_argument_kind,
+                    &graph.types,
+                )
+                .map_err(|e| InstantiationArgumentError::ArgumentTypeMismatch {
+                    name: argument_name.to_string(),
+                    source: e,
+                })?;
+""",
+         new="""            let _ = (argument_node, expected_argument_kind, &cache);
+"""),
 ]
